@@ -83,6 +83,8 @@ Proof.
     + intros i [].
     + intros w k i rest Hn. destruct w; discriminate.
     + intros i r. unfold tkn. destruct i; cbn; discriminate.
+    + constructor.
+    + intros v [].
   - constructor.
     + constructor.
     + constructor.
